@@ -6,7 +6,7 @@ cp /tmp/mut/${id}${sfx}.out/patch.diff /tmp/mut/${id}${sfx}.out/demo.py $d/; cp 
 python3 - "$id" "$name" "$needs" "$caught" <<'PY'
 import json,sys
 pid,name,needs,caught=sys.argv[1:5]
-json.dump(dict(property=pid, origin="blind sub-agent, third round (told only what earlier rounds had tried)", needs_to_manifest=needs,
+json.dump(dict(property=pid, origin="blind sub-agent, later round (see DESIGN.md D.6 for what each round was told)", needs_to_manifest=needs,
  confirmed=["pytest on the changed tree: 57 passed","demo.py on the changed tree: exit 1","demo.py on the pristine tree: exit 0"],
  ran=["VERIF_REPO=<worktree with the change> ./check %s"%pid], detected_by=caught), open("/verif/seeded/%s/meta.json"%name,"w"), indent=1)
 PY
